@@ -610,6 +610,8 @@ def r_guard_exact(F, engine, fn, specs, invariants=(), label=None, optional=Fals
                 cfs = alt
         site = final_site_facts(engine, fn, cid) or set()
         defs = definitions(site)
+        # (the bounds are read through the same definitions as the guard: `const auto i = f(x); if (i >= n) throw; v[i]`)
+        targets = [lin_diff(expand(x, defs), expand(y, defs)) for (x, y) in specs]
         for f in cfs:
             inst = "%s#guard:%s" % (inst0, fmt_fact(f))
             req = "the refusal condition is exactly the out-of-bounds condition (%s)" % " or ".join(
@@ -694,3 +696,74 @@ def r_guard_exact(F, engine, fn, specs, invariants=(), label=None, optional=Fals
 def S_may_write(F, h):
     """A checking helper only refuses: it stores nothing (cheap syntactic test)."""
     return any(is_store(nd) for nd in h.nodes)
+
+
+# ------------------------------------------------------------------------------------------
+def subscript_guards_exact(F, S, scope, functions=None):
+    """R-GUARD: where a function both subscripts a container with some index and refuses on a condition that is a bound on
+    that same index (the same linear form up to a constant), the refusal is exactly `index >= size()`: it turns away
+    neither a valid index (such as the last one) nor lets size() itself through. Refusals about other quantities are not
+    judged here. Returns (obligations, number of guards judged)."""
+    from .rules_archive import subscript_sites
+    out = []
+    fns = functions if functions is not None else [f for f in F.functions.values() if any(x in f.file for x in scope)]
+    for fn in sorted(fns, key=lambda f: f.key):
+        if not fn.cfg or fn.d.get("implicit"):
+            continue
+        subs = [(b, i) for (nd, b, i, ext) in subscript_sites(fn) if ext is None]
+        if not subs:
+            continue
+        eng = Engine(F, S)
+        if not guard_blocks(eng, fn):
+            continue
+        seen = set()
+        specs = []
+        for (b, i) in subs:
+            if (b, i) not in seen:
+                seen.add((b, i))
+                specs.append((i, ("size", b), True))
+        out += r_guard_exact(F, eng, fn, specs, optional=True, label=fn.qn + "#subscript-guard")
+    return out, len(out)
+
+
+CAPACITIES = {(1 << 8) - 1: "UINT8_MAX", (1 << 15) - 1: "INT16_MAX", (1 << 16) - 1: "UINT16_MAX", (1 << 31) - 1: "INT32_MAX",
+              (1 << 32) - 1: "UINT32_MAX", (1 << 63) - 1: "INT64_MAX", (1 << 64) - 1: "UINT64_MAX"}
+
+
+def capacity_refusals_exact(F, S, scope, functions=None):
+    """R-GUARD: a refusal that compares a quantity with a constant at the edge of an integer type's range refuses exactly
+    the values above that type's maximum: `v > MAX` (or `v >= MAX + 1`). `v >= MAX` / `v > MAX - 1` turn away the largest
+    representable value (which a reader of the same field accepts), `v > MAX + 1` lets an unrepresentable one through.
+    Comparisons with constants that are not within 2 of such a maximum are other limits and are not judged.
+    Returns (obligations, number judged)."""
+    out = []
+    fns = functions if functions is not None else [f for f in F.functions.values() if any(x in f.file for x in scope)]
+    for fn in sorted(fns, key=lambda f: f.key):
+        if not fn.cfg or fn.d.get("implicit"):
+            continue
+        eng = Engine(F, S)
+        gbs = guard_blocks(eng, fn)
+        if not gbs:
+            continue
+        g = eng.cfg(fn)
+        for (b, cid, thr, nxt) in gbs:
+            truth = [l for (t, l) in g.succ[b] if t == thr][0]
+            for f in cond_facts(fn, cid, truth):
+                if f[0] not in ("<", "<=") or f[1][0] != "const" or f[2][0] == "const":
+                    continue
+                lo = f[1][1] + (1 if f[0] == "<" else 0)        # smallest refused value
+                near = [c for c in CAPACITIES if abs((lo - 1) - c) <= 2]
+                if not near:
+                    continue
+                cap = near[0]
+                inst = "%s#capacity-refusal:%s" % (fn.qn, fmt_fact(f))
+                req = "a refusal at the edge of an integer range refuses exactly the values above %s" % CAPACITIES[cap]
+                if lo - 1 == cap:
+                    out.append(ok("R-GUARD", inst, fn.loc(cid), fn.qn, req, "refuses %s > %d" % (fmt_term(f[2]), cap)))
+                elif lo - 1 < cap:
+                    out.append(bad("R-GUARD", inst, fn.loc(cid), fn.qn, req,
+                                   "`%s` also refuses %d..%d, representable values that the field's reader accepts" % (fmt_fact(f), lo, cap)))
+                else:
+                    out.append(bad("R-GUARD", inst, fn.loc(cid), fn.qn, req,
+                                   "`%s` lets %d..%d through, which do not fit" % (fmt_fact(f), cap + 1, lo - 1)))
+    return out, len(out)
